@@ -19,7 +19,10 @@ def absolutize(inv):
             es = []
             for k, v in d[1]:
                 if k == ('s', 'classes') and v[0] == 'l':
-                    v = ('l', [S(G.py_abs_class_name(loc, x[1])) if x[0] == 's' and '${' not in x[1] else x for x in v[1]])
+                    rv = getattr(inv, 'refvals', None) or {}
+                    # an entry ${refN} denotes the (relative) name held by refN: replaced by the absolute name too
+                    v = ('l', [S(G.py_abs_class_name(loc, x[1])) if x[0] == 's' and '${' not in x[1]
+                               else (S(rv[x[1][2:-1]][1]) if x[0] == 's' and x[1][2:-1] in rv else x) for x in v[1]])
                 es.append((k, v))
             files[p] = ('m', es)
     return t
@@ -30,6 +33,7 @@ def rel_inv(rng):
     inv = G.Inv()
     dirs = [(), ('a',), ('a', 'b'), ('a', 'b', 'c'), ('d',)]
     names = []
+    refvals = {}
     for i in range(rng.randint(3, 8)):
         d = rng.choice(dirs)
         if rng.random() < 0.2 and d:
@@ -58,11 +62,23 @@ def rel_inv(rng):
                 else:
                     dots_extra = 0
                 rel = '.' * (dots + dots_extra) + '.'.join(tsegs[k:])
-                incs.append(rel if G.py_abs_class_name(loc, rel) == tn else tn)
+                inc = rel if G.py_abs_class_name(loc, rel) == tn else tn
+                if rng.random() < 0.25:
+                    # the (relative) name is produced by a reference: same resolution rule
+                    key = 'ref%d' % len(refvals)
+                    refvals[key] = (inc, tn)
+                    inc = '${%s}' % key
+                incs.append(inc)
         inv.classes[path] = G.doc(incs, ['app_' + name], ('m', [(S('trace'), L(S(name))), (S('v'), S(name))]))
     inv.universe.update(n for n, _, _ in names)
     roots = [n for n, _, _ in names if rng.random() < 0.5] or [names[0][0]]
     roots = [('.' * rng.randint(1, 3) + r) if rng.random() < 0.4 else r for r in roots]   # nodes resolve relative to the root
+    if refvals:
+        # the values of the reference-bearing include entries, merged before every other class
+        inv.classes[('zsel.yml',)] = G.doc([], [], ('m', [(S(k), S(v[0])) for k, v in sorted(refvals.items())]))
+        inv.universe.add('zsel')
+        roots = ['zsel'] + roots
+    inv.refvals = refvals
     inv.nodes[('n.yml',)] = G.doc(roots, [], ('m', [(S('trace'), L(S('NODE')))]))
     return inv
 
@@ -89,7 +105,7 @@ def run(tier, rng, C):
         a, b = C.case_id('r', i), C.case_id('a', i)
         cases.append({'id': a, 'line': G.inv_line(a, inv, G.op_node('n')), 'show': G.show_inv(inv, 'node n'), 'nontrivial': True})
         cases.append({'id': b, 'line': G.inv_line(b, tw, G.op_node('n')), 'show': G.show_inv(tw, 'node n'), 'nontrivial': False,
-                      'twin': a})
+                      'twin': a, 'hasrefs': bool(getattr(inv, 'refvals', None))})
 
     def oracle(cases, mobs, iobs):
         fails = []
@@ -97,6 +113,11 @@ def run(tier, rng, C):
             if 'twin' not in c:
                 continue
             o, o1 = iobs.get(c['id'], ''), iobs.get(c['twin'], '')
+            if c.get('hasrefs') and o.startswith('ok ') and o1.startswith('ok ') and ' C ' in o and ' C ' in o1:
+                # the class list shows a reference-bearing include entry as written (${refN}), the twin
+                # shows the literal name: compare applications and parameters only
+                cut = lambda x: x.split(' C ', 1)[0] + ' P ' + x.split(' P ', 1)[1]
+                o, o1 = cut(o), cut(o1)
             if o != o1:
                 fails.append({'key': 'relative-include-differs-from-absolute', 'severity': 'fail', 'show': c['show'],
                               'lines': [c['line']], 'reason': 'the node renders differently when relative includes are replaced by the '
